@@ -78,7 +78,10 @@ CORE = [
     ("clone", "fresh"), ("clone", "collide"), ("clone", "collide-empty"), ("clone", "resave"), ("clone", "stray"),
     ("clone", "bak"),
     ("remove", "fresh"), ("remove", "nosp"), ("clear", "fresh"), ("clear", "stray"),
+    # Job.reset() = clear() + init(): judged by the oracle alone (the Lean model has the two halves, not the composite)
+    ("reset", "fresh"), ("reset", "stray"),
 ]
+NO_MODEL_OPS = ("reset",)
 
 
 def make_scenario(op, variant, rng, events="all"):
@@ -86,7 +89,7 @@ def make_scenario(op, variant, rng, events="all"):
     rng.shuffle(sps)
     sp, newsp, other = sps[0], sps[1], sps[2]
     pay = PAYLOADS[rng.randrange(len(PAYLOADS))]
-    if op in ("clone", "remove", "clear") and not pay["files"]:
+    if op in ("clone", "remove", "clear", "reset") and not pay["files"]:
         pay = PAYLOADS[0]
     jobs = []
     tgt = {"proj": 0, "sp": sp, "damage": None, "resave": False}
@@ -349,12 +352,28 @@ def op_keys(scn):
     return (0, sid), (0, sid)
 
 
+_LAST = {}
+
+
+def handle_view():
+    """what the handle the operation went through says about itself afterwards"""
+    job = _LAST.get("job")
+    if job is None:
+        return None
+    try:
+        sp = json.loads(json.dumps(job.statepoint(), default=lambda o: o() if callable(o) else str(o)))
+    except Exception as e:  # noqa: BLE001
+        return {"id": job.id, "sp_error": type(e).__name__}
+    return {"id": job.id, "sp_id": ref_id(sp)}
+
+
 def do_op(scn, work):
     import signac
 
     p0 = signac.Project(os.path.join(work, "p0"))
     op = scn["op"]
     job = p0.open_job(scn["sp"])
+    _LAST["job"] = job
     if op == "init":
         job.init()
     elif op == "rekey":
@@ -367,6 +386,8 @@ def do_op(scn, work):
         job.remove()
     elif op == "clear":
         job.clear()
+    elif op == "reset":
+        job.reset()
     else:
         raise ValueError(op)
 
@@ -422,7 +443,7 @@ class Runner:
         roots = {"P0": ws[0], "P1": ws[1]}
         pre, orders = read_world(ws)
         scn, work = self.scn, self.work
-        res = faultfs.run_forked(lambda: do_op(scn, work), roots, plan_of(ev), exc_name=exc_name)
+        res = faultfs.run_forked(lambda: do_op(scn, work), roots, plan_of(ev), exc_name=exc_name, after=handle_view)
         post, _ = read_world(ws)
         checks = [real_check(os.path.join(self.work, "p%d" % p)) for p in (0, 1)]
         return pre, orders, res, post, checks
@@ -493,7 +514,7 @@ def oracle(scn, ev, pre, res, post, checks, base_post=None):
     out = []
     op = scn["op"]
     src, dst = op_keys(scn)
-    removal = op in ("remove", "clear")
+    removal = op in ("remove", "clear", "reset")
     evs = "event=%s" % json.dumps(ev)
 
     def fail(msg, cls=None):
@@ -608,6 +629,21 @@ def oracle(scn, ev, pre, res, post, checks, base_post=None):
         for k in set(pre) | set(post):
             if k not in post or k not in pre or not same_job(pre[k], post[k]):
                 fail("no crash, no fault: the operation raised %s and P%d/%s changed" % (res["exc"], k[0], k[1][:8]))
+    # (7) the handle the caller keeps: after an operation that RAISED (and did not die) it still describes one job - its
+    #     id is the hash of the state point it reports (a handle with the old id and the rejected state point makes the
+    #     'failed' assignment take effect with the next change)
+    hv = res.get("after")
+    if res["status"] == "done" and res["exc"] is not None and isinstance(hv, dict) and "sp_id" in hv and hv["sp_id"] != hv["id"]:
+        fail("the operation raised %s; the handle now has id %s but reports a state point hashing to %s" % (
+            res["exc"], hv["id"][:8], hv["sp_id"][:8]))
+    if op in ("clear", "reset") and src in pre and dir_valid(src[1], pre[src]):
+        # clear() / reset() empty the job, they never remove THE JOB: whatever happens on the way, its directory and
+        # its state point file stay (a job that vanished is neither the pre-state nor anything check() could report)
+        if src not in post:
+            fail("the job directory P%d/%s is gone after %s()" % (src[0], src[1][:8], op))
+        elif post[src]["raw"].get(SP) != pre[src]["raw"].get(SP) and src[1] not in checks[src[0]]:
+            fail("the state point file of P%d/%s changed or vanished during %s() and check() does not report it" % (
+                src[0], src[1][:8], op))
     if removal:
         # removals may stop anywhere between pre and post; nothing may appear except the reset document
         if src in post and src in pre:
@@ -673,6 +709,8 @@ def run_case(case, ctx):
                     with_model = False
                 else:
                     ev_m = [[e[0] - sum(1 for j in base_red if j < e[0])] + list(e[1:]) for e in ev]
+            if case["op"] in NO_MODEL_OPS:
+                with_model = False
             if with_model:
                 model.append("exec %s %s %s" % (world_wire(pre), op_wire(case, orders), ev_wire(ev_m)))
                 kept = [s_ for i_, s_ in enumerate(res["steps"]) if i_ not in red]
